@@ -69,6 +69,9 @@ def generate(rng, tier, cls):
                                     main_pool=pool)
         prod = {'id': 'P1', 'kind': 'writer', 'file': 'f1',
                 'main_encoding': main, 'ops': ops}
+
+        if rng.chance(0.1):
+            prod['shadow'] = rng.below(50)
     else:
         prod = {'id': 'P1', 'kind': 'raw', 'file': 'f1',
                 'foreign': gen.gen_foreign(rng, meta_le=False,
@@ -214,6 +217,12 @@ def execute(scn, L):
         if canonical:
             out.violate('C06.canonical-not-loadable', '%s:%s' % (
                 es['type'], es['func']), {'exc': es})
+        elif not es['family']:
+            # a crash is not a rejection: the object model says "no" with
+            # an error of the library's own family
+            out.violate('C06.load-crashes', '%s:%s' % (es['type'],
+                                                       es['func']),
+                        {'exc': es})
         else:
             out.probe('foreign_not_accepted:' + es['type'])
             out.discarded = 'object-model-does-not-accept'
